@@ -14,6 +14,7 @@ import (
 	"regexp"
 	"runtime"
 	"runtime/debug"
+	"runtime/pprof"
 	"sort"
 	"strconv"
 	"strings"
@@ -47,8 +48,29 @@ func main() {
 	debug.SetGCPercent(200)
 	if s := os.Getenv("DDPSIM_CPU_LIMIT"); s != "" {
 		n, _ := strconv.Atoi(s)
-		lim := syscall.Rlimit{Cur: uint64(n), Max: uint64(n)}
+		// hard limit (kernel) a little above the soft one below, which reports where the frontend is spinning
+		lim := syscall.Rlimit{Cur: uint64(n + 20), Max: uint64(n + 20)}
 		syscall.Setrlimit(0 /* RLIMIT_CPU */, &lim)
+		go func() {
+			sampled := 0
+			for {
+				time.Sleep(500 * time.Millisecond)
+				var ru syscall.Rusage
+				syscall.Getrusage(0, &ru)
+				cpu := float64(ru.Utime.Sec+ru.Stime.Sec) + float64(ru.Utime.Usec+ru.Stime.Usec)/1e6
+				if cpu >= float64(n)-5+float64(sampled) && sampled < 5 {
+					// samples of the stack one CPU-second apart: what all of them have in common is where the frontend spins
+					sampled++
+					fmt.Fprintf(os.Stderr, "cpu sample:\n")
+					pprof.Lookup("goroutine").WriteTo(os.Stderr, 2)
+				}
+				if cpu >= float64(n) {
+					fmt.Fprintf(os.Stderr, "cpu limit: did not return within %d CPU-seconds\n", n)
+					pprof.Lookup("goroutine").WriteTo(os.Stderr, 2)
+					os.Exit(3)
+				}
+			}
+		}()
 	}
 	if s := os.Getenv("DDPSIM_AS_LIMIT_MB"); s != "" {
 		n, _ := strconv.Atoi(s)
